@@ -96,6 +96,7 @@ var mutantCatalogue = map[string][]mutant{
 		{Name: "rollback forgets the replaced writes", File: "risc/app.go", Old: "\t\tfor _, overwritten := range ctx.transactionOverwritten[register] {\n\t\t\tif overwritten.sequenceID < sequenceID && (tu.sequenceID >= sequenceID || overwritten.sequenceID > tu.sequenceID) {\n\t\t\t\ttu = overwritten\n\t\t\t}\n\t\t}\n", New: ""},
 	},
 	"C07": {
+		{Name: "write-unit emptiness test inverted", File: "proc/mvp7-0/cpu.go", Old: "\t\tif !wu.isEmpty() {\n\t\t\treturn false", New: "\t\tif wu.isEmpty() {\n\t\t\treturn false"},
 		{Name: "flush leaves the branch flag raised", File: "proc/mvp7-0/cu.go", Old: "\tu.pushedRunnersInPreviousCycle = nil\n\tu.pendingConditionalBranch = false\n}", New: "\tu.pushedRunnersInPreviousCycle = nil\n}"},
 		{Name: "refused writer still counted", File: "proc/comp/semaphore.go", Old: "\tif s.write > 0 || s.read > 0 {\n\t\treturn false\n\t}\n\ts.write++", New: "\ts.write++\n\tif s.write > 1 || s.read > 0 {\n\t\treturn false\n\t}"},
 		{Name: "final drain never steps the snoops", File: "proc/mvp7-0/cpu.go", Old: "\t\t\tcc.snoop.Cycle(struct{}{})\n\t\t}\n\t\tfor i, eu", New: "\t\t}\n\t\tfor i, eu"},
@@ -124,6 +125,7 @@ var mutantCatalogue = map[string][]mutant{
 		{Name: "nop costs zero cycles", File: "risc/risc.go", Old: "\tcase Nop:\n\t\treturn 1", New: "\tcase Nop:\n\t\treturn 0"},
 	},
 	"C09": {
+		{Name: "completion predicate inverted on the control bus", File: "proc/mvp6-1/cpu.go", Old: "\t\tm.controlBus.IsEmpty() &&", New: "\t\t!m.controlBus.IsEmpty() &&"},
 		{Name: "ret not held behind an unresolved branch", File: "proc/mvp7-1/cu.go", Old: "risc.Ret && (!u.outBus.IsEmpty() || u.pendingConditionalBranch)", New: "risc.Ret && (!u.outBus.IsEmpty() && u.pendingConditionalBranch)"},
 		{Name: "flush keeps the fetch unit complete", File: "proc/mvp6-2/fu.go", Old: "\tu.complete = false\n", New: ""},
 		{Name: "final drain ignores a busy write unit", File: "proc/mvp8-0/cpu.go", Old: "\t\t\tif !wu.isEmpty() || !m.writeBus.IsEmpty() {\n\t\t\t\tempty = false\n\t\t\t}\n", New: "\t\t\tif !wu.isEmpty() || !m.writeBus.IsEmpty() {\n\t\t\t}\n"},
@@ -218,6 +220,7 @@ var mutantCatalogue = map[string][]mutant{
 		{Name: "write lock released as read lock", File: "proc/mvp7-0/msi.go", Old: "\t\treturn msiResponse{writeToL1: true}, func() {\n\t\t\tm.getSem(addrs).Unlock()", New: "\t\treturn msiResponse{writeToL1: true}, func() {\n\t\t\tm.getSem(addrs).RUnlock()"},
 	},
 	"C12": {
+		{Name: "indirect jump to zero skips the register access", File: "risc/opcodes.go", Old: "\trs := registerRead(ctx, op.forward, op.rs, sequenceID)\n\tregister, value := IsRegisterChange(op.rd, pc+4)\n\treturn Execution{\n\t\tRegisterChange: true,", New: "\trs := registerRead(ctx, op.forward, op.rs, sequenceID)\n\tregister, value := IsRegisterChange(op.rd, pc+4)\n\treturn Execution{\n\t\tRegisterChange: op.rd != Zero,"},
 		{Name: "delay idles one step more", File: "common/coroutine/coroutine.go", Old: "\t\tif remaining > 0 {\n", New: "\t\tif remaining >= 0 {\n"},
 		{Name: "a step with side jobs also runs the entry", File: "common/coroutine/coroutine.go", Old: "\tif length == 0 {\n\t\treturn c.current(a)\n\t}\n\treturn zero\n", New: "\treturn c.current(a)\n"},
 		{Name: "write-back latency dropped", File: "proc/mvp1/cpu.go", Old: "m.cycle += latency.RegisterAccess", New: "m.cycle += 0"},
